@@ -74,6 +74,9 @@ let cls = function
   | EStorage -> "storage" | EJson -> "json" | ENotIndexed -> "notindexed" | EBadSchema -> "badschema" | EOther -> "other"
 
 let cls_res = function Ok _ -> "ok" | Err e -> cls e | Panic -> "panic"
+(* enumerating reads (All, Collect, One, scans) stop at the first unreadable object, which one
+   depends on map order: their read errors are compared as one class *)
+let rd = function "notfound" | "json" | "other" -> "readerr" | s -> s
 let cls_opt = function None -> "ok" | Some e -> cls e
 
 (* ---------------------------------------------------------------- configuration *)
@@ -253,6 +256,7 @@ let run_history (lines : string list) =
     let unit_line r = match r with
       | RUnit x -> emit ("r " ^ cls_res x)
       | RPanic -> emit "r panic"
+      | RCrash -> emit "r crash"
       | _ -> emit "r ?" in
     match t with
     | "create" :: kv ->
@@ -269,43 +273,45 @@ let run_history (lines : string list) =
         let ms = List.map (member_of orc) ms in
         (match do_step (OMany ms) with
          | RMany (r, n) -> emit (Printf.sprintf "r %s %s" (cls_res r) (string_of_z n))
-         | RPanic -> emit "r panic" | _ -> emit "r ?")
+         | RPanic -> emit "r panic" | RCrash -> emit "r crash" | _ -> emit "r ?")
     | "bulk" :: cs :: ms ->
         let ms = List.map (member_of orc) ms in
         (match do_step (OBulk (z_of_int (int_of_string cs), ms)) with
          | RMany (r, n) -> emit (Printf.sprintf "r %s %s" (cls_res r) (string_of_z n))
-         | RPanic -> emit "r panic" | _ -> emit "r ?")
+         | RPanic -> emit "r panic" | RCrash -> emit "r crash" | _ -> emit "r ?")
     | [ "del"; u ] -> unit_line (do_step (ODelete (n_of_int (int_of_string u))))
-    | [ "delall" ] -> unit_line (do_step ODeleteAll)
+    | [ "delall" ] -> unit_line (do_step (ODeleteAll (List.map n_of_int orc.order)))
     | [ ("get" | "getu"); u ] ->
         (match do_step (OGet (n_of_int (int_of_string u))) with
          | RObj (Ok (u, o)) -> emit ("r ok " ^ rec_tok u o)
          | RObj r -> emit ("r " ^ cls_res r)
-         | RPanic -> emit "r panic" | _ -> emit "r ?")
+         | RPanic -> emit "r panic" | RCrash -> emit "r crash" | _ -> emit "r ?")
     | [ "exist"; u ] ->
         (match do_step (OExist (n_of_int (int_of_string u))) with
          | RBool (Ok b) -> emit ("r ok " ^ b2s b)
          | RBool r -> emit ("r " ^ cls_res r ^ " 0")
-         | RPanic -> emit "r panic" | _ -> emit "r ?")
+         | RPanic -> emit "r panic" | RCrash -> emit "r crash" | _ -> emit "r ?")
     | [ "count" ] ->
         (match do_step OCount with
          | RNum (Ok n) -> emit ("r ok " ^ string_of_z n)
          | RNum r -> emit ("r " ^ cls_res r ^ " 0")
-         | RPanic -> emit "r panic" | _ -> emit "r ?")
+         | RPanic -> emit "r panic" | RCrash -> emit "r crash" | _ -> emit "r ?")
     | "all" :: _ ->
         (match do_step OAll with
          | RObjs (Ok l) -> print_objs 1 l
-         | RObjs r -> emit ("r " ^ cls_res r)
-         | RPanic -> emit "r panic" | _ -> emit "r ?")
+         | RObjs r -> emit ("r " ^ rd (cls_res r))
+         | RPanic -> emit "r panic" | RCrash -> emit "r crash" | _ -> emit "r ?")
     | "search" :: sid :: fld :: o :: probe :: _ ->
         (match do_step (OSearch (n_of_int (int_of_string sid), fld_of fld, sop_of o, key_of_tok probe)) with
-         | RSearch (e, n) -> emit (Printf.sprintf "r %s %s" (cls_opt e) (string_of_z n))
-         | RPanic -> emit "r panic" | _ -> emit "r ?")
+         | RSearch (Some e, _) -> emit (Printf.sprintf "r %s 0" (rd (cls e)))
+         | RSearch (None, n) -> emit (Printf.sprintf "r ok %s" (string_of_z n))
+         | RPanic -> emit "r panic" | RCrash -> emit "r crash" | _ -> emit "r ?")
     | ("and" | "or") :: sid :: old :: fld :: o :: probe :: _ ->
         let mkop = if List.hd t = "and" then (fun a b c d e -> OAnd (a, b, c, d, e)) else (fun a b c d e -> OOr (a, b, c, d, e)) in
         (match do_step (mkop (n_of_int (int_of_string sid)) (n_of_int (int_of_string old)) (fld_of fld) (sop_of o) (key_of_tok probe)) with
-         | RSearch (e, n) -> emit (Printf.sprintf "r %s %s" (cls_opt e) (string_of_z n))
-         | RPanic -> emit "r panic" | _ -> emit "r ?")
+         | RSearch (Some e, _) -> emit (Printf.sprintf "r %s 0" (rd (cls e)))
+         | RSearch (None, n) -> emit (Printf.sprintf "r ok %s" (string_of_z n))
+         | RPanic -> emit "r panic" | RCrash -> emit "r crash" | _ -> emit "r ?")
     | [ "len"; sid ] ->
         (match do_step (OLen (n_of_int (int_of_string sid))) with
          | RNum (Ok n) -> emit ("r ok " ^ string_of_z n)
@@ -315,19 +321,19 @@ let run_history (lines : string list) =
         let limo = if ZZ.sign lim < 0 then None else Some (n_of_zz lim) in
         (match do_step (OCollect (n_of_int (int_of_string sid), limo, rv = "1")) with
          | RObjs (Ok l) -> print_objs (int_of_string mode) l
-         | RObjs r -> emit ("r " ^ cls_res r)
-         | RPanic -> emit "r panic" | _ -> emit "r ?")
+         | RObjs r -> emit ("r " ^ rd (cls_res r))
+         | RPanic -> emit "r panic" | RCrash -> emit "r crash" | _ -> emit "r ?")
     | [ "one"; sid; mode ] ->
         (match do_step (OOne (n_of_int (int_of_string sid))) with
          | RObj (Ok x) -> print_objs (int_of_string mode) [ x ]
-         | RObj r -> emit ("r " ^ cls_res r)
-         | RPanic -> emit "r panic" | _ -> emit "r ?")
+         | RObj r -> emit ("r " ^ rd (cls_res r))
+         | RPanic -> emit "r panic" | RCrash -> emit "r crash" | _ -> emit "r ?")
     | [ "sdel"; sid ] -> unit_line (do_step (OSearchDelete (n_of_int (int_of_string sid))))
     | [ "aidx"; fld ] ->
         (match do_step (OAssignIndex (fld_of fld)) with
          | RKeys (Ok ks) -> emit ("r ok " ^ String.concat " " (List.map tok_of_key ks))
          | RKeys r -> emit ("r " ^ cls_res r)
-         | RPanic -> emit "r panic" | _ -> emit "r ?")
+         | RPanic -> emit "r panic" | RCrash -> emit "r crash" | _ -> emit "r ?")
     | [ "commit" ] -> unit_line (do_step OCommit)
     | [ "flushall" ] -> unit_line (do_step OFlushAll)
     | [ "flushallc" ] -> unit_line (do_step OFlushAllCommit)
@@ -339,6 +345,7 @@ let run_history (lines : string list) =
     | [ "schema" ] -> unit_line (do_step OSchema)
     | [ "tick" ] -> unit_line (do_step OTick)
     | [ "failat"; k ] -> unit_line (do_step (OFailAt (nat_of_int (int_of_string k))))
+    | [ "crashat"; k ] -> unit_line (do_step (OCrashAt (nat_of_int (int_of_string k))))
     | [ "dump" ] ->
         (match do_step OSchema with
          | RUnit (Ok _) ->
@@ -352,7 +359,12 @@ let run_history (lines : string list) =
     | [ "fs" ] -> print_fs c !st.s_w.w_disk
     | [ "rmfile"; u ] -> unit_line (do_step (XRmFile (n_of_int (int_of_string u))))
     | [ ("corrupt" | "truncfile"); u ] -> unit_line (do_step (XCorrupt (n_of_int (int_of_string u))))
-    | [ "addfile"; r ] -> let (u, o) = parse_rec r in unit_line (do_step (XAddFile (n_of_int u, o)))
+    | [ "addfile"; r ] ->
+        let (u, o) = parse_rec r in
+        let sfx = match !st.s_w.w_disk.d_schema with
+          | Some (SOk sf) -> suffix_of sf.sf_set
+          | _ -> suffix_of (settings_of c) in
+        unit_line (do_step (XAddFile (n_of_int u, sfx, o)))
     | [ "rmschema" ] -> unit_line (do_step XRmSchema)
     | [ "rmentry"; u ] -> unit_line (do_step (XRmEntry (n_of_int (int_of_string u))))
     | [ "stray"; "nodot" ] -> unit_line (do_step (XStray (bytes_of_string "README")))
